@@ -34,7 +34,9 @@ CONSTANTS MaxInstr,    \* number of generated instructions
 Fill(type, class) ==
   CASE type = "int" /\ class = "ok"      -> {"0", "1+2", "2**10", "7//2", "'( 3 )*2'", "0x10"}
     [] type = "int" /\ class = "notint"  -> {"1.5", "1/2", "'a'", "None", "[1]", "{1}"}
-    [] type = "int" /\ class = "uneval"  -> {"1//0", "1/0", "5%0", "2.0**10000", "[1][2]", "input.txt", "{}['a']", "10**5000"}
+    [] type = "int" /\ class = "uneval"  -> {"1//0", "1/0", "5%0", "2.0**10000", "[1][2]", "input.txt", "{}['a']", "10**5000",
+                                             \* (expressions whose evaluation would END the evaluating program)
+                                             "exit()", "quit()", "exit(7)", "__import__('sys').exit(3)"}
     \* (braces and per-cent signs: text that is hostile to message formatting)
     \* (DIGIT2: a superscript two, DIGITS-AR: Arabic-Indic digits - characters that str.isdigit accepts and that are
     \*  no Python literal; NINES: a decimal literal of 5000 digits, more than int() converts)
